@@ -809,7 +809,7 @@ func DiffInterface(m *MV, v interface{}, path string) string {
 			return fmt.Sprintf("%s: array length %d, Interface gives %d", path, len(m.Arr), len(a))
 		}
 		for i := range a {
-			if d := DiffInterface(m.Arr[i], a[i], fmt.Sprintf("%s[%d]", path, i)); d != "" {
+			if d := DiffInterface(m.Arr[i], a[i], childPath(path, "["+strconv.Itoa(i)+"]")); d != "" {
 				return d
 			}
 		}
@@ -835,7 +835,7 @@ func DiffInterface(m *MV, v interface{}, path string) string {
 			if !ok {
 				return fmt.Sprintf("%s: key %q missing from Interface map", path, k)
 			}
-			if d := DiffInterface(exp[k], got, path+"."+k); d != "" {
+			if d := DiffInterface(exp[k], got, childPath(path, "."+k)); d != "" {
 				return d
 			}
 		}
@@ -866,7 +866,37 @@ func DiffInterfaceRoots(roots []*MV, v interface{}) string {
 // absent keys, and FindElement from each root. Returns a description of the first disagreement.
 func CheckFind(pj *simdjson.ParsedJson, roots []*MV) (diff string, err error) {
 	w := newWalkCtx(pj)
+	// Reading every found value completely at every level is quadratic in the nesting depth - the harness's own cost,
+	// which must not eat the step cap that stands for "the library terminates". Below the fourth level a found subtree
+	// of more than 64 values is compared by kind only (its content is compared when the walk descends into it), and the
+	// cap covers the up to three complete reads per name on each of the levels above.
+	w.cap = 64*len(pj.Tape) + 4096
 	depth := 0
+	sizes := map[*MV]int{}
+	var sizeOf func(m *MV) int
+	sizeOf = func(m *MV) int {
+		if n, ok := sizes[m]; ok {
+			return n
+		}
+		n := 1
+		for _, c := range m.Arr {
+			n += sizeOf(c)
+		}
+		for _, c := range m.Vals {
+			n += sizeOf(c)
+		}
+		sizes[m] = n
+		return n
+	}
+	readFound := func(it *simdjson.Iter, t simdjson.Type, want *MV) (*MV, error) {
+		if depth > 4 && sizeOf(want) > 64 {
+			if want.K == KObject && t == simdjson.TypeObject || want.K == KArray && t == simdjson.TypeArray {
+				return want, nil
+			}
+			return nil, fmt.Errorf("found a value of type %v where the document has %s", t, want.short())
+		}
+		return w.advValue(it, t)
+	}
 	var visit func(it *simdjson.Iter, t simdjson.Type, m *MV, path string) error
 	visit = func(it *simdjson.Iter, t simdjson.Type, m *MV, path string) error {
 		if err := w.tick(); err != nil {
@@ -905,7 +935,7 @@ func CheckFind(pj *simdjson.ParsedJson, roots []*MV) (diff string, err error) {
 					diff = fmt.Sprintf("%s: FindKey(%q) returned nil for a present key", path, k)
 					return nil
 				}
-				got, err := w.advValue(&el.Iter, el.Type)
+				got, err := readFound(&el.Iter, el.Type, want)
 				if err != nil {
 					return fmt.Errorf("%s: reading FindKey(%q) result: %w", path, k, err)
 				}
@@ -918,7 +948,7 @@ func CheckFind(pj *simdjson.ParsedJson, roots []*MV) (diff string, err error) {
 					diff = fmt.Sprintf("%s: FindPath(%q) failed for a present key: %v", path, k, err)
 					return nil
 				}
-				got2, err := w.advValue(&el2.Iter, el2.Type)
+				got2, err := readFound(&el2.Iter, el2.Type, want)
 				if err != nil {
 					return fmt.Errorf("%s: reading FindPath(%q) result: %w", path, k, err)
 				}
@@ -934,7 +964,7 @@ func CheckFind(pj *simdjson.ParsedJson, roots []*MV) (diff string, err error) {
 						diff = fmt.Sprintf("%s: FindPath(%q,%q) failed: %v", path, k, k2, err)
 						return nil
 					}
-					got3, err := w.advValue(&el3.Iter, el3.Type)
+					got3, err := readFound(&el3.Iter, el3.Type, want.Vals[0])
 					if err != nil {
 						return err
 					}
@@ -971,7 +1001,7 @@ func CheckFind(pj *simdjson.ParsedJson, roots []*MV) (diff string, err error) {
 					break
 				}
 				if m.Vals[i].isContainer() {
-					if err := visit(&e, et, m.Vals[i], fmt.Sprintf("%s.%s", path, shortBytes(m.Keys[i]))); err != nil {
+					if err := visit(&e, et, m.Vals[i], childPath(path, "."+shortBytes(m.Keys[i]))); err != nil {
 						return err
 					}
 				}
@@ -994,7 +1024,7 @@ func CheckFind(pj *simdjson.ParsedJson, roots []*MV) (diff string, err error) {
 					break
 				}
 				if m.Arr[i].K == KObject && et == simdjson.TypeObject || m.Arr[i].K == KArray && et == simdjson.TypeArray {
-					if err := visit(&ai, et, m.Arr[i], fmt.Sprintf("%s[%d]", path, i)); err != nil {
+					if err := visit(&ai, et, m.Arr[i], childPath(path, "["+strconv.Itoa(i)+"]")); err != nil {
 						return err
 					}
 				}
@@ -1212,4 +1242,13 @@ func RoundTrip(ser, des *simdjson.Serializer, pj *simdjson.ParsedJson, dst *simd
 		return e
 	})
 	return
+}
+
+// childPath extends a path for messages; long paths keep their tail only (building full paths on the way down is
+// quadratic in the nesting depth).
+func childPath(path, seg string) string {
+	if len(path) > 240 {
+		path = "…" + path[len(path)-200:]
+	}
+	return path + seg
 }
